@@ -192,12 +192,12 @@ def precedence(rep):
     saved = fl.load_aggregation_dict
     n = 0
     try:
-        for has_builtin, has_user, has_base, requested_as, explicit_fn in itertools.product([False, True], [False, True], [False, True], ["target", "argument", "none"], [False, True]):
+        for has_builtin, has_user, has_base, requested_as, explicit_fn in itertools.product([False, True], [False, True], [False, "function", "data"], ["target", "argument", "none"], [False, True]):
             builtin = {"base_hh": {"source_col": "base", "aggr": "max"}} if has_builtin else {}
             user = {"base_hh": {"source_col": "base", "aggr": "min"}} if has_user else {}
             fl.load_aggregation_dict = lambda typ, b=builtin: dict(b) if typ == "aggregate_by_group" else {}
             funcs = {}
-            if has_base:
+            if has_base == "function":
                 funcs["base"] = base
             if requested_as == "argument":
                 funcs["consumer"] = consumer
@@ -206,7 +206,7 @@ def precedence(rep):
             targets = ["base_hh"] if requested_as == "target" else []
             n += 1
             try:
-                out = fl._create_aggregate_by_group_functions(funcs, targets, ["x", "hh_id"], user)
+                out = fl._create_aggregate_by_group_functions(funcs, targets, ["x", "hh_id"] + (["base"] if has_base == "data" else []), user)
                 got = facts.agg_kind(out["base_hh"])[0] if "base_hh" in out else None
                 err = None
             except Exception as ex:  # noqa: BLE001
